@@ -341,6 +341,11 @@ func equalsT(t types.Type, x, y Value) *Term {
 			return cBool(x.ID == ya.ID)
 		}
 		return tFalse
+	case *NumStr:
+		if yn, ok := y.(*NumStr); ok && yn.Kind == x.Kind {
+			return eqT(x.T, yn.T)
+		}
+		return tFalse
 	case *Value:
 		return cBool(x == y.(*Value))
 	case *Map:
